@@ -30,6 +30,8 @@ impl SnapshotWriter {
             //.append(true)
             //.create_new(true)
             .create(true)
+            // 中断的快照可能留下同名残留文件，必须清空后再写入
+            .truncate(true)
             .open(path)
             .await?;
         let mut buf = Vec::new();
